@@ -53,8 +53,8 @@ def Matches : List Str → List Str → Bool
 
 /-- `isSystemTopic`: `len(s) >= 1 && s[0] == '$'` -/
 def isSystemTopic : Str → Bool
-  | '$' :: _ => true
-  | _ => false
+  | [] => false
+  | c :: _ => c = '$'
 
 /-- first level of the filter is `+` or `#` -/
 def startsWithWildcard (filter : Str) : Bool :=
